@@ -215,3 +215,41 @@ def run_case(case, model):
     if case.get('kind') == 'restart':
         return run_restart(case, model)
     return qh.run_case(case, model, {'C01'})
+
+
+def sched_cases(tier, seed):
+    """Scheduler runs (the harness of C12: virtual clock, held relay answers with per-recipient verdicts in mapping / reversed
+    mapping / sequence form, held storage calls, flushes, announcements, bounded pools), replayed through the composed queue machine
+    (Model/QueueM.lean: scheduler + storage contents + ledger + bounces) and watched by the C01 monitors over what the relay, the
+    bounce factory and the storage saw."""
+    from harness.props import c12
+    for j in range(2500 if tier == 'quick' else 40000):
+        def mk(j=j):
+            rng = rng_for(seed, 'c01q', j)
+            return {'sched': True, 'script': None, 'seed': rng.randrange(1 << 30), 'backoff': rng.choice(c12.BACKOFFS), 'preload': rng.choice([0, 0, 1, 2]),
+                    'pools': rng.choice([None, None, None, [3, 3]]), 'nmsg': rng.choice([1, 2, 3, 4]), 'steps': rng.choice([10, 16, 24, 32]),
+                    'holds': rng.random() < 0.4, 'idorder': rng.choice(['asc', 'desc']), 'stale': rng.random() < 0.3}
+        yield mk
+
+
+_base_cases = cases
+
+
+def cases(tier, seed, phase):          # noqa: F811  (the scheduler scenarios are appended)
+    for c in _base_cases(tier, seed, phase):
+        yield c
+    for c in sched_cases(tier, seed):
+        yield c
+
+
+_base_run_case = run_case
+
+
+def run_case(case, model):          # noqa: F811
+    if case.get('sched'):
+        from harness.core import CaseResult
+        from harness.props import c12
+        r = c12.run_case(case, model)
+        hits = [h for h in r.hits if h['signature'].startswith('c01.')]
+        return CaseResult(r.mismatch, hits, ('sched',) + tuple(r.key) if r.key else None, ['sched'] + [t for t in r.tags if t.startswith('label:') or t.startswith('outcome:')])
+    return _base_run_case(case, model)
